@@ -9,6 +9,7 @@ mkdir -p "$OUT"
 SAN=0; SETUP=0
 for a in "$@"; do case "$a" in --san) SAN=1;; --setup) SETUP=1;; esac; done
 
+EXTRA_TARGETS=""
 build_lib() { # dir compiler extra-flags
   local dir="$1" cxx="$2" flags="$3"
   if [ ! -f "$dir/build.ninja" ]; then
@@ -17,12 +18,12 @@ build_lib() { # dir compiler extra-flags
       -DCMAKE_CXX_FLAGS_RELWITHDEBINFO="-O2 -g1 -DNDEBUG" \
       -DCMAKE_CXX_FLAGS="-Wno-error -DVATA_VERIF $flags" > "$dir.cmake.log" 2>&1 || { cat "$dir.cmake.log"; exit 2; }
   fi
-  cmake --build "$dir" --target libvata -j16 > "$dir.build.log" 2>&1 || { tail -50 "$dir.build.log"; exit 2; }
+  cmake --build "$dir" --target libvata $EXTRA_TARGETS -j16 > "$dir.build.log" 2>&1 || { tail -50 "$dir.build.log"; exit 2; }
 }
 
 (
   flock 9
-  build_lib "$OUT/build" g++ ""
+  EXTRA_TARGETS="vata" build_lib "$OUT/build" g++ ""
   make -s -C "$VERIF/harness" REPO="$REPO" LIBDIR="$OUT/build/src" OUT="$OUT/bin" -j16 > "$OUT/harness.build.log" 2>&1 || { tail -40 "$OUT/harness.build.log"; exit 2; }
   if [ "$SAN" = 1 ]; then
     build_lib "$OUT/build-san" clang++ "-fsanitize=address,undefined -fno-omit-frame-pointer -fno-sanitize-recover=undefined"
